@@ -50,6 +50,12 @@ func bytesKey(ex *Exec, v Value) string {
 	if sl.Arr != nil && sl.Arr.StrSrc != nil && sl.Arr.E == nil {
 		s, ok := sl.Arr.StrSrc.(string)
 		if !ok {
+			// a symbolic string that the path condition pins to one value is as good as that value
+			if ss, isSym := sl.Arr.StrSrc.(*SymStr); isSym {
+				if u, unique := ex.uniqueString(ss); unique {
+					return u
+				}
+			}
 			panic(engineErr("bolt model: symbolic key"))
 		}
 		return s
